@@ -12,7 +12,7 @@ def run(ctx):
                 "must be caught by TLC.  TRACE: seeded scenarios on the real downloader (profile c02: 40-100% of the "
                 "share instances damaged by layout field through the real offset table, truncated, bit-flipped, "
                 "replaced by shares of another file or of another encoding under the same key, lying instances whose "
-                "file changes between deliveries, tampering encoder in ~20% of uploads); every chunk that reaches "
+                "file changes between deliveries, tampering encoder in ~20% of uploads; in ~30% of the scenarios chained reads on one node: a read ending at P, then two overlapping reads from P); every chunk that reaches "
                 "the consumer is compared with the plaintext.  Non-trivial = any damage, fault, tampered upload or "
                 "more than one read.")
     ctx.assumptions += fam.COMMON_ASSUMPTIONS
